@@ -57,3 +57,7 @@ pub assume_specification<T, E> [ Option::<Result<T, E>>::transpose ] (o: Option<
 
 pub assume_specification<T: Clone> [ <[T] as std::borrow::ToOwned>::to_owned ] (s: &[T]) -> (r: Vec<T>)
     ensures r@ == s@;
+
+// Rust guarantee: a Vec never holds more than isize::MAX bytes
+#[verifier::external_body]
+pub proof fn axiom_vec_max(v: &Vec<u8>) ensures v@.len() <= 0x7fff_ffff_ffff_ffff { }
